@@ -1250,9 +1250,9 @@ impl PeerConnection {
             )));
         }
         let should_set_controlling = {
-            let local = self.inner.local_description.lock();
-            let remote = self.inner.remote_description.lock();
-            local.is_none() && remote.is_none()
+            let local_none = self.inner.local_description.lock().is_none();
+            let remote_none = self.inner.remote_description.lock().is_none();
+            local_none && remote_none
         };
 
         if should_set_controlling {
